@@ -17,6 +17,7 @@ CLAIMS = {
  "C16": "tls_parser_many and parse_dtls_plaintext_records are proved equal to an explicit 'iterate the single-record parser while it succeeds' specification for every input (using progress >= 1 byte, the generic no-Failure theorem and the Safe theorems), fail-iff-first-fails as a corollary, tls_parser = parse_tls_plaintext by definition; the check additionally chains the implementation's own single-record parser over each input and compares with its multi-record parser.",
  "C13": "Round-trip theorems (value modulo slice offsets, exact consumption, untouched remainder) for ServerDHParams, ECParameters in both forms, ServerECDHParams, ECPoint and both DigitallySigned forms against RFC encoders, over the full ranges of all length fields; rejection of every other curve type; parse_content_and_signature characterised for EVERY content parser and both flag values.",
  "C14": "Round-trip theorems for a single SCT and for SCT lists of any length (generic many0(complete(..)) lemma), every field exact; over-long list gives Incomplete with the exact count; an over-long entry is not decoded (the list stops before it).",
+ "C04": "Round-trip theorem for all 17 handshake variants against RFC encoders (value modulo slice offsets, exact consumption, remainder untouched; absent vs empty extension block and session id, list order, opaque bodies), including the alt(TLS1.2, legacy) CertificateRequest disambiguation; confinement to the 24-bit length as an equation for every input; rejection theorems (session id > 32, odd/over-long cipher list, over-long compression list, short ticket, over-long certificate list / status blob, unsupported ServerHello version, unknown type, cut-off message), each universally quantified; dispatch and version tables re-read from the source each run.",
 }
 def chk(pid):
     return {"property_id": pid, "quick_cmd": "./check %s --tier quick" % pid, "thorough_cmd": "./check %s --tier thorough" % pid,
